@@ -406,6 +406,90 @@ def run(facts, tier, ctx):
     rs.require_floor(8, "LocalKey::with sites")
     out.append(rs)
 
+    # ---------------------------------------------------------- PLAIN-STATE
+    ps = RuleResult("PLAIN-STATE", "a reusable storage holding a plain value (no growable buffer) is overwritten as a whole "
+                    "before it is read in every call")
+    GROW = re.compile(r"Vec<|SimdVec<|MemSink<|BTreeMap<|HashMap<|VecDeque<|String")
+
+    def has_growable(ty, depth=0):
+        if GROW.search(ty):
+            return True
+        if depth > 3:
+            return False
+        for m in re.findall(r"[A-Za-z_][A-Za-z_0-9:]*", ty):
+            adt = facts.adts.get(m)
+            if adt:
+                for v in adt["variants"]:
+                    for f in v["fields"]:
+                        if has_growable(f["ty"], depth + 1):
+                            return True
+        return False
+    nplain = 0
+    for (b, bi, st, outer, inner) in sites:
+        if st is None or inner is None:
+            continue
+        ty = stor.get(st, "")
+        if has_growable(ty):
+            ps.ok({"storage": st, "type": ty, "verdict": "buffer storage: decided by RESET"}, trivial=True)
+            continue
+        nplain += 1
+        where = b.loc(bi, "term")
+        # the user closure invoked with the storage reference
+        users = []
+        for ibi, t in inner.calls():
+            fn = t.get("fn") or {}
+            if fn.get("name") in ("call", "call_mut", "call_once") and fn.get("res") in facts.bodies:
+                users.append(facts.bodies[fn["res"]])
+        if len(users) != 1:
+            ps.fail(Finding("PLAIN-STATE", inner.id, "unrecognised-access:%s" % st.split("::")[-1], 0, where,
+                            "cannot find the closure that receives storage %s" % st))
+            continue
+        u = users[0]
+        paths = R.ref_paths(u, {2: ""}, None)
+        defs = []
+        reads = []
+        for ubi in sorted(u.live):
+            blk = u.blocks[ubi]
+            for si, s2 in enumerate(blk["stmts"]):
+                if s2["k"] != "assign":
+                    continue
+                d = s2["dst"]
+                if d["l"] in paths and d["p"] and all(p == "*" for p in d["p"]) and paths[d["l"]] == "":
+                    defs.append((ubi, si))
+                rv = s2["rv"]
+                ops_ = [rv[k] for k in ("op", "a", "b") if isinstance(rv.get(k), dict)] + list(rv.get("ops", []))
+                for o in ops_:
+                    pl = op_place(o)
+                    if pl is not None and pl["l"] in paths and "*" in pl["p"]:
+                        reads.append((ubi, si, "read of the stored value"))
+                if rv["k"] == "discr" and rv["pl"]["l"] in paths:
+                    reads.append((ubi, si, "match on the stored value"))
+                if rv["k"] == "copyderef" and rv["pl"]["l"] in paths:
+                    pass
+            t = blk["term"]
+            if t["k"] == "call":
+                for a in t["args"]:
+                    l = op_local(a)
+                    if l in paths and l != 2:
+                        reads.append((ubi, "term", "passed to %s" % ((t.get("fn") or {}).get("name"))))
+                    elif l == 2:
+                        reads.append((ubi, "term", "passed to %s" % ((t.get("fn") or {}).get("name"))))
+            if t["k"] == "switch":
+                pl = op_place(t["d"])
+                if pl is not None and pl["l"] in paths and "*" in pl["p"]:
+                    reads.append((ubi, "term", "branch on the stored value"))
+        bad = [r for r in reads if not any(u.pos_dominates(dp, (r[0], r[1])) and dp != (r[0], r[1]) for dp in defs)]
+        if bad:
+            ps.fail(Finding("PLAIN-STATE", u.id, "read-before-overwrite:%s" % st.split("::")[-1], 0, u.loc(bad[0][0], bad[0][1]),
+                            "storage %s: %s is read (%s at %s) before this call has overwritten it: the value an earlier "
+                            "call on this thread left there influences this call" % (st, ty, bad[0][2], u.loc(bad[0][0], bad[0][1]))),
+                    {"storage": st, "type": ty, "verdict": "FAIL"})
+        else:
+            ps.ok({"storage": st, "type": ty, "verdict": "ok", "whole_stores": len(defs), "reads": len(reads)})
+    ps.notes.append("plain-value storages on this tree: %d" % nplain)
+    ps.require_floor(8, "LocalKey::with sites")
+    out.append(ps)
+
     # ------------------------------------------------------------------ KEY
     ky = RuleResult("KEY", "cache keys of map-typed storages are derived injectively from the lookup parameters")
     for (b, bi, st, outer, inner) in sites:
